@@ -20,9 +20,9 @@ PROPS = {
             'align_struct preconditions (struct or word with sized members; layout fits usize) are the typer\'s obligation, not verified'], 'trusted': []},
     'C08': {'units': ['U-MUT', 'U-MUTW', 'U-FCALL'], 'assumptions': ['the whole-program non-interference consequence is not under contract; constant initialisers are not walked by mutability.rs (relies on constness.rs, not under contract)'], 'trusted': []},
     'C12': {'units': ['U-EXPORT', 'U-KEYOFF'], 'assumptions': ['expand (import fix-point), Compiler multi-module state and split-equivalence are not under contract'], 'trusted': []},
-    'C13': {'units': ['U-CODE', 'U-LEXD', 'U-LEXA', 'U-LOC'], 'assumptions': ['rendering (ariadne), parser-side span combination beyond Location::combined_with, and run-to-run determinism (HashMap/HashSet iteration) are not under contract', 'alpha lexer spans: as under C14 (line offsets are the running sum of chars+1, not the true index for CRLF sources: D9)'], 'trusted': []},
+    'C13': {'units': ['U-CODE', 'U-LEXD', 'U-LEXA', 'U-LOC'], 'assumptions': ['rendering (ariadne), parser-side span combination beyond Location::combined_with, and run-to-run determinism (HashMap/HashSet iteration) are not under contract', 'alpha lexer spans: as under C14 (trusted model of str::split_inclusive / strip_suffix)'], 'trusted': []},
     'C14': {'units': ['U-LEXD', 'U-LEXA'], 'assumptions': ['the headline equivalence of the two lexers is not stated as one theorem: each lexer is verified against its own declarative token/span/value spec',
-            'alpha lexer: line offsets are proved to be the running sum of (characters + 1) per line, not the true character index (false for CRLF sources: D9); str::lines is modelled only by: sum of (chars+1) over lines <= chars+1, "" has no lines',
+            'alpha lexer: the line offset is proved to be the true character index of the line in the source, against a trusted exact model of str::split_inclusive (pieces concatenate to the source, none empty, every piece but the last ends in a line feed, no other line feed) and of str::strip_suffix for a char',
             'alpha lexer: keyword and punctuation tables in the spec restate the language tables (no documented list exists in the repository)'], 'trusted': []},
     'C15': {'units': ['U-LEXD', 'U-PARSE', 'U-HDR', 'U-DIG'], 'assumptions': ['recorded findings D4 (parser recursion) and D17 (XML printer recursion): 14 shapes of deeply nested or long valid modules abort the process with a stack overflow; printed as KNOWN-FINDING on every run, each with its replayed input','XML dumps (as_xml/print_xml) excluded: format!/Box<dyn Iterator>/&str slicing',
             'lex -> parse interface: lex() ENSURES ltok_shape (two final EndOfSource tokens, parallel well-formed packed words) and <= 2^24 tokens whenever it reports no error (U-LEXD); parse() REQUIRES ltok_ok = ltok_shape && tokens < 2^24 (U-PARSE); both units include the same text spec/ltok_ok_spec.rs; the composition is by matching that text, not one Verus run',
@@ -39,7 +39,7 @@ PROPS = {
 ALSO_RELEVANT = {
     'C14': ['C15.tokbuf.payload', 'C15.tokbuf.packed_word', 'C15.tokbuf.push_appends', 'C15.tokbuf.push_token_appends', 'C15.tokbuf.two_end_of_source'],
     'C13': ['C14.lexa.span', 'C14.lexa.token_span', 'C14.lexa.token_on_given_line', 'C14.lexa.error_token_span', 'C14.lexa.escape_error_span', 'C14.lexa.missing_quote_error_spans',
-            'C14.lexa.tokens_appended_with_increasing_spans', 'C14.lexa.line_offset_is_sum', 'C14.lexa.file_token_spans', 'C14.lexa.empty_file_is_reported', 'C14.lexa.offsets_fit'],
+            'C14.lexa.tokens_appended_with_increasing_spans', 'C14.lexa.line_offset_is', 'C14.lexa.line_is_the_source_text', 'C14.lexa.line_terminator_stripped', 'C14.lexa.every_token_lies_inside', 'C14.lexa.file_token_spans', 'C14.lexa.empty_file_is_reported', 'C14.lexa.offsets_fit'],
 }
 
 NOT_APPLICABLE = {
@@ -81,7 +81,7 @@ LEVELS = {'C07': {'text': 'PARTIAL: proof (Verus, unbounded over all value types
                  'arithmetic cannot underflow. Alpha lexer span exactness is proved under C14. Rendering (ariadne) and run-to-run determinism (HashMap/HashSet iteration) are NOT under contract.',
          'note': 'trusted: Verus+Z3, slicer/splicer, heading parser of docs/errors.md'},
  'C14': {'text': "PARTIAL: each lexer verified (Verus, unbounded over all inputs) against its own declarative spec. ALPHA (lex, lex_line, parse_integer_suffix, is_identifier_continuation): every token's span is "
-                 'start..end = exactly the characters consumed for it, on the given line, spans strictly increasing; line offsets are the running sum of (chars+1); identifiers are maximal and their text is the source '
+                 'start..end = exactly the characters consumed for it, on the given line, spans strictly increasing; the line offset is the true character index of the line in the source (CRLF included; D9 repaired); identifiers are maximal and their text is the source '
                  'text; 34 reserved words/builtins/identifier classification; punctuation by longest match; other characters rejected one by one; literal payloads as under C09 (D14, a span overshoot on a trailing '
                  'backslash, was found by span_end_tracks_consumed_chars and fixed). DELTA (all byte strings <= 2^31): digit values, suffix table, identifier-continuation class, span arithmetic, termination and '
                  'panic-freedom of all 13 loops. The equivalence of the two lexers is NOT stated as one theorem.',
